@@ -1,4 +1,5 @@
 import WmModel.Props.C12
+import WmModel.Props.C12Tie
 #print axioms Wm.Retry.never_out_of_fuel
 #print axioms Wm.Retry.attempts_follow_script
 #print axioms Wm.Retry.first_success_wins
@@ -14,6 +15,8 @@ import WmModel.Props.C12
 #print axioms Wm.Retry.interval_closed_form
 #print axioms Wm.Retry.interval_closed_form_frac
 #print axioms Wm.Retry.wait_at_least_backoff
+#print axioms Wm.Retry.wait_at_least_configured_backoff
+#print axioms Wm.Retry.wait_at_least_configured_backoff_frac
 #print axioms Wm.Retry.reported_delay_in_interval
 #print axioms Wm.Retry.waited_reported_delay
 #print axioms Wm.Retry.gives_up_on_ctx_end
@@ -21,3 +24,5 @@ import WmModel.Props.C12
 #print axioms Wm.Retry.gives_up_on_elapsed
 #print axioms Wm.Retry.gives_up_on_elapsed_observable
 #print axioms Wm.Retry.old_retry_after_stop_witness
+#print axioms Wm.GoRetry.extracted_retry_eq_model
+#print axioms Wm.GoRetry.extracted_ctx_deadline
